@@ -606,6 +606,10 @@ class CFGrid2D(CFGrid[CFGrid2DTopology]):
         if len(latitude.dims) != 2 or len(longitude.dims) != 2:
             return None
 
+        # Both coordinates must be defined on the same two dimensions
+        if set(latitude.dims) != set(longitude.dims):
+            return None
+
         return Specificity.LOW
 
     def _make_polygons(self) -> numpy.ndarray:
